@@ -34,6 +34,86 @@ pub fn pol_str(u: &Universe, p: &Value, ctx: &str) -> String {
     }
 }
 
+
+/// all key labels occurring in a policy record
+fn pol_keys(p: &Value, acc: &mut Vec<usize>) {
+    if p["p"] == "key" {
+        let k = p["n"].as_u64().unwrap() as usize;
+        if !acc.contains(&k) {
+            acc.push(k);
+        }
+    }
+    if let Some(xs) = p["xs"].as_array() {
+        for x in xs {
+            pol_keys(x, acc);
+        }
+    }
+}
+
+fn push_len(n: usize) -> usize {
+    if n <= 75 { 1 + n } else if n <= 255 { 2 + n } else { 3 + n }
+}
+
+/// Real spends of a compiled output (wide policies only): the library's own satisfier with every
+/// key of the policy available, and with each single key withheld in turn; what is measured is
+/// the size of the satisfaction as it goes on chain (judged against the context's limits by
+/// Trace_Compile).
+fn limit_sats(u: &Universe, pol: &Value, d: &Descriptor<Pk>) -> Value {
+    let mut keys = vec![];
+    pol_keys(pol, &mut keys);
+    if keys.len() < 9 {
+        return json!([]);
+    }
+    let rs_len = match d {
+        Descriptor::Sh(_) | Descriptor::Wsh(_) => d.explicit_script().map(|s| s.len()).unwrap_or(0),
+        _ => 0,
+    };
+    let mut out = vec![];
+    let mut drops: Vec<Option<usize>> = vec![None];
+    drops.extend(keys.iter().map(|k| Some(*k)));
+    for drop in drops {
+        let sigs: Vec<usize> = keys.iter().cloned().filter(|k| Some(*k) != drop).collect();
+        let wj = json!({"sigs": sigs, "pre": [["sha256", 1], ["sha256", 2]], "ik": false,
+                        "env": {"lock": 0, "ver": 2, "seq": {"final": false, "dis": false, "time": false, "v": 0}}});
+        let w = crate::world::World::from_json(&wj);
+        let r = crate::sat::one_result(u, d, &w, "nonmall", "desc", None);
+        let mut o = json!({"drop": drop.unwrap_or(0), "r": r["r"]});
+        if r["r"] == "ok" {
+            let wit = r["raw"]["wit"].as_array().map(|a| a.len()).unwrap_or(0);
+            let ssig = r["real_ssig_bytes"].as_u64().unwrap_or(0) as usize;
+            let (ssig_sat, wit_items) = match d {
+                Descriptor::Sh(sh) => match sh.as_inner() {
+                    miniscript::descriptor::ShInner::Ms(_) => (ssig.saturating_sub(push_len(rs_len)), 0),
+                    _ => (0, wit.saturating_sub(1)),
+                },
+                Descriptor::Wsh(_) => (0, wit.saturating_sub(1)),
+                Descriptor::Bare(_) => (ssig, 0),
+                _ => (0, wit),
+            };
+            o["ssig_sat_bytes"] = json!(ssig_sat);
+            o["wit_items"] = json!(wit_items);
+        } else {
+            o["ssig_sat_bytes"] = json!(0);
+            o["wit_items"] = json!(0);
+        }
+        out.push(o);
+    }
+    json!(out)
+}
+
+/// the output type a bare miniscript compiled for a context is meant for
+fn wrap_ms<Ctx: ScriptContext>(u: &Universe, ms: &Miniscript<Pk, Ctx>, ctx: &str) -> Option<Descriptor<Pk>> {
+    let text = ms.to_string();
+    let ds = match ctx {
+        "legacy" => format!("sh({})", text),
+        "segwitv0" => format!("wsh({})", text),
+        "bare" => text,
+        "tap" => format!("tr({},{})", u.key_str(UNSPENDABLE, "tap"), text),
+        _ => return None,
+    };
+    Descriptor::<Pk>::from_str(&ds).ok()
+}
+
 fn ms_target<Ctx: ScriptContext>(u: &Universe, pol: &Value, ctx: &str) -> Value {
     let s = pol_str(u, pol, ctx);
     let r = catch_unwind(AssertUnwindSafe(|| -> Result<Value, String> {
@@ -41,7 +121,8 @@ fn ms_target<Ctx: ScriptContext>(u: &Universe, pol: &Value, ctx: &str) -> Value 
         let ms: Miniscript<Pk, Ctx> = p.compile().map_err(|e| e.to_string())?;
         let text = ms.to_string();
         let re = Miniscript::<Pk, Ctx>::from_str(&text);
-        Ok(json!({"st": "ok", "ast": ms_to_ast(u, &ms), "ty": ty_json(&ms), "sane": ms.validate(&Ctx::SANE).is_ok(),
+        let sats = wrap_ms(u, &ms, ctx).map(|d| limit_sats(u, pol, &d)).unwrap_or(json!([]));
+        Ok(json!({"st": "ok", "ast": ms_to_ast(u, &ms), "ty": ty_json(&ms), "sane": ms.validate(&Ctx::SANE).is_ok(), "sats": sats,
                   "reparse_sane": re.as_ref().map(|x| *x == ms).unwrap_or(false), "within_limits": ms.within_resource_limits(), "msg": ""}))
     }));
     finish("ms", ctx, r)
@@ -56,7 +137,7 @@ fn finish(kind: &str, ctx: &str, r: std::thread::Result<Result<Value, String>>) 
     o["kind"] = json!(kind);
     o["ctx"] = json!(ctx);
     for (k, v) in [("ast", json!({"f": "0", "n": 0, "ks": [], "xs": []})), ("ty", json!({"b": "", "fl": []})), ("sane", json!(false)),
-                   ("reparse_sane", json!(false)), ("within_limits", json!(false)), ("ik", json!(0)), ("leaves", json!([]))] {
+                   ("reparse_sane", json!(false)), ("within_limits", json!(false)), ("ik", json!(0)), ("leaves", json!([])), ("sats", json!([]))] {
         if o.get(k).is_none() {
             o[k] = v;
         }
@@ -130,7 +211,8 @@ fn desc_target(u: &Universe, pol: &Value, which: &str) -> Value {
             },
             _ => return Err("unexpected descriptor".into()),
         };
-        Ok(json!({"st": "ok", "ast": ast, "ty": ty, "sane": sane, "reparse_sane": re, "within_limits": true, "msg": ""}))
+        let sats = limit_sats(u, pol, &d);
+        Ok(json!({"st": "ok", "ast": ast, "ty": ty, "sane": sane, "reparse_sane": re, "within_limits": true, "msg": "", "sats": sats}))
     }));
     finish(which, ctx, r)
 }
